@@ -605,3 +605,31 @@ def equal_null() -> SmtResult:
     if verdict == "sat":
         return SmtResult("counterexample", queries=1, solver_s=dt, detail=str(model), model={"a": str(model.eval(a.val)), "a_null": str(model.eval(a.null)), "b": str(model.eval(b.val)), "b_null": str(model.eval(b.null))}, programs=1)
     return SmtResult("inconclusive", queries=1, solver_s=dt, detail=str(notes))
+
+
+SEEDS = [0, 1, 7, 42, 100000, 2147483647, 3221225470]
+
+
+def _seed_applied(ni: int, with_other: bool, seeded: bool) -> bool:
+    n = SEEDS[ni]
+    sql = (f"select random({n}) as r" + (", a" if with_other else "") + " from t1") if seeded else "select random() as r from t1"
+    out = sqlglot.parse_one(sql, read="snowflake").transform(transforms.random)
+    seed = out.args.get("seed")
+    if not seeded:
+        return not seed
+    return bool(seed) and str(seed).startswith(str(n) + "/")
+
+
+@ob(
+    "C10.random_seed_is_always_applied",
+    encodes=["fakesnow.transforms.random (seed extraction)"],
+    bounds="RANDOM(n) for n in {0, 1, 7, 42, 100000, 2147483647, 3221225470} (edge values of the supported seed range) in a select list, alone or "
+    "next to another column: the transform must emit a setseed argument built from exactly that n; RANDOM() without a seed must emit none",
+    timeout=(120, 300),
+)
+def random_seed_applied(ni: int, with_other: bool, seeded: bool) -> bool:
+    """
+    pre: 0 <= ni < len(SEEDS)
+    post: _
+    """
+    return done(fast.native(_seed_applied, fast.pick(ni, len(SEEDS)), bool(fast.pick(with_other, 2)), bool(fast.pick(seeded, 2))))
